@@ -12,6 +12,8 @@ AllKV == KVs(Breaks, Degs, MaxNpts)
 Pts(n) == (IF "gen" \in PtKinds THEN {Gen1(n), Gen2(n)} ELSE {})
           \cup (IF "pos" \in PtKinds THEN {[i \in 1..n |-> R(1 + ((i * 3) % 4))]} ELSE {})
           \cup (IF "flat" \in PtKinds THEN {Const(n, Q(5, 2))} ELSE {})
+          \* a bump of height 1/30000: not removable exactly, removable within the DEFAULT tolerance 1e-9
+          \cup (IF "bump" \in PtKinds /\ n >= 3 THEN {[i \in 1..n |-> IF i = 2 THEN Q(1, 30000) ELSE Zero]} ELSE {})
           \cup (IF "unit" \in PtKinds THEN {Unit(n, k) : k \in 1..n} ELSE {})
 Wts(n) == (IF "none" \in WtKinds THEN {<<>>} ELSE {})
           \cup (IF "const" \in WtKinds THEN {Const(n, Two)} ELSE {})
@@ -114,7 +116,12 @@ MCArgs(name, h, dep) ==
          {[obj |-> "a", times |-> t, tol |-> <<"default">>, form |-> f] : t \in 1..2, f \in {"method", "setter"}}
          \cup {[obj |-> "a", times |-> 1, tol |-> t, form |-> "method"] : t \in Tols \ {<<"default">>}}
     [] name = "CvClean" ->
-         {[obj |-> "a", which |-> w] : w \in {"knot", "degree", "all"}}
+         \* explicit tolerance 1e-30: exact removals are still accepted, everything else must be refused (an inexact
+         \* removal of these small-height rational data deviates by far more); curves with a tiny bump are cleaned
+         \* only with it (with the default 1e-9 their lossy simplification is legitimately accepted)
+         LET bump == \E i \in DOMAIN h["a"].P : ~IsZero(h["a"].P[i]) /\ Lt(RAbs(h["a"].P[i]), Q(1, 1000)) IN
+         {[obj |-> "a", which |-> w, tol |-> t] : w \in {"knot", "degree", "all"},
+                                                  t \in (IF bump THEN {<<"e", 30>>} ELSE {<<"default">>, <<"e", 30>>})}
     [] name = "CvSplitTake" ->
          IF dep = 0 THEN
            {[obj |-> "a", nodes |-> <<x>>, i |-> 1] : x \in (Midpoints(U) \cup InteriorSet(U) \cup {y \in ExtraNodes : Lt(Umin(U), y) /\ Lt(y, Umax(U))})}
